@@ -157,7 +157,9 @@ Step(ev) == CASE ev.ev = "FromMetric" -> FromMetricStep(ev)
                    R(G("C20.array_prior_used_as_given_whatever_its_dtype",
                        \* (the same numbers up to rounding: another dtype / memory layout changes the order of the floating-point sums, which an
                        \*  ill-conditioned fit amplifies - 2^-15 of the largest entry, as for C06's equivalent array-likes)
-                       ev.outcome_int = "ok" /\ ApproxM(ev.L_int, ev.L_float, 1, 1, MaxAbsM(ev.L_float))),
+                       \* (compared as METRICS L^T L: a nearly singular M may be factorised by Cholesky in one run and by its eigen-decomposition in the other)
+                       ev.outcome_int = "ok" /\ Len(ev.L_int) > 0 /\
+                       LET Mi == DM!Gram(ev.L_int)  Mf == DM!Gram(ev.L_float) IN ApproxM(Mi, Mf, 1, 1, MaxAbsM(Mf))),
                      {"C20.array_prior_used_as_given_whatever_its_dtype"})
               [] ev.ev = "InitComponents" -> InitComponentsStep(ev)
               [] OTHER -> R({"TRACE.unknown_event"}, {})
